@@ -6,9 +6,12 @@
    xmlcheck s|k <codec|-> <tree>       -> ok | bad   (Lean reader on the MODEL output = skeleton)
    parse s|k <hex utf-8> <tree>        -> ok | bad:<why>  (Lean reader on the IMPLEMENTATION output = skeleton)
 
+   fmt.f3 <+|-> <p/q>   fmt.d <+|-> <p/q>   fmt.bbox (<+|-> <p/q>)x4   -> the formatted number(s)
+
    strings are code points in hex joined by ',' ("-" = empty); <tree> is a word sequence, see
    tools/harness/props/c11.py `node_words`. -/
 import PdfVerif.Spec.Xml
+import PdfVerif.Gen.ConvertFmt
 
 open PdfVerif PdfVerif.Convert PdfVerif.Xml
 
@@ -52,7 +55,8 @@ partial def pItem : P Item := do
   | "line" => do let a ← str; let b ← str; pure (.line a b)
   | "rect" => do let a ← str; let b ← str; pure (.rect a b)
   | "curve" => do let a ← str; let b ← str; let c ← str; pure (.curve a b c)
-  | "image" => do let a ← str; let b ← str; pure (.image a b)
+  | "image" => do let a ← str; let b ← str; pure (.image a b none)
+  | "imagesrc" => do let n ← str; let a ← str; let b ← str; pure (.image a b (some n))
   | "(figure" => do let n ← str; let b ← str; let ks ← pItems; pure (.figure n b ks)
   | "(textline" => do let b ← str; let ks ← pItems; pure (.textline b ks)
   | "(textbox" => do
@@ -121,8 +125,25 @@ partial def nodesEq : List Node → List Node → Bool
   | _, _ => false
 end
 
+def srat (sg q : String) : Option SRat :=
+  match ratOfString q with
+  | some r => if sg == "-" then some (true, r) else if sg == "+" then some (false, r) else none
+  | none => none
+
 def step (line : String) : String :=
   match words line with
+  | ["fmt.f3", sg, q] =>
+    match srat sg q with
+    | some x => String.ofList (fmtF3 x)
+    | none => "bad-op"
+  | ["fmt.d", sg, q] =>
+    match srat sg q with
+    | some x => String.ofList (fmtD x)
+    | none => "bad-op"
+  | ["fmt.bbox", s0, q0, s1, q1, s2, q2, s3, q3] =>
+    match srat s0 q0, srat s1 q1, srat s2 q2, srat s3 q3 with
+    | some a, some b, some c, some d => String.ofList (PdfVerif.Gen.ConvertFmt.bbox2str a b c d)
+    | _, _, _, _ => "bad-op"
   | "text" :: tree =>
     match parsePages tree with
     | some ps => hexOfStr (sinkText (textDocWrites ps))
